@@ -721,8 +721,8 @@ class SqwEngine(Engine):
 
     def budget(self, tier):
         if self.prop == "C13":
-            return 5000 if tier == "quick" else 300000
-        return 1600 if tier == "quick" else 100000
+            return 5000 if tier == "quick" else 150000
+        return 1600 if tier == "quick" else 50000
 
     def timeout(self, tier):
         return 180 if tier == "quick" else 600
